@@ -58,6 +58,8 @@ struct St {
     dtid: Option<i32>,
     drop_ms: u128,
     foreign_calls: usize,
+    // storm mode: how the free-running worker is slowed down inside write_all (0 none, n: n yields, 1000+n: sleep n us)
+    throttle: u64,
 }
 
 struct Shared {
@@ -151,6 +153,14 @@ impl SW {
         self.note_thread();
         let id = { self.sh.st.lock().unwrap().ids.get(buf).copied().unwrap_or(0) };
         self.park(1, id);
+        let throttle = { self.sh.st.lock().unwrap().throttle };
+        if throttle >= 1000 {
+            thread::sleep(Duration::from_micros(throttle - 1000));
+        } else {
+            for _ in 0..throttle {
+                thread::yield_now();
+            }
+        }
         let ok = {
             let mut st = self.sh.st.lock().unwrap();
             let k = st.ncalls;
@@ -344,6 +354,144 @@ fn drain_fd(fd: i32) -> String {
     String::from_utf8_lossy(&out).into_owned()
 }
 
+/// Truly concurrent leg: N free-running producer threads x K lines each into a small queue, the worker free-running
+/// (optionally slowed down inside write_all), then the guard is dropped.  Nothing is compared with a model; the
+/// observations (what every producer offered and got back, the whole call log, dropped_lines()) are judged by
+/// clauses that hold on EVERY schedule, so the verdict does not depend on timing.
+///
+/// input : {"mode":"storm","cap":2,"lossy":true,"nprod":8,"nlines":300,"throttle":3,"faults":[..],"guard_after":null|n}
+///         guard_after = n: drop the guard as soon as n writes have returned (producers still running)
+fn storm(case: &Value, err_fd: i32) -> ! {
+    use std::sync::atomic::{AtomicUsize, Ordering};
+    use std::sync::Barrier;
+    let cap = case["cap"].as_u64().unwrap_or(1) as usize;
+    let lossy = case["lossy"].as_bool().unwrap_or(true);
+    let nprod = case["nprod"].as_u64().unwrap_or(8) as usize;
+    let nlines = case["nlines"].as_u64().unwrap_or(100) as usize;
+    let throttle = case["throttle"].as_u64().unwrap_or(0);
+    let guard_after = case["guard_after"].as_u64().map(|x| x as usize);
+    let bound = Duration::from_millis(case["bound_ms"].as_u64().unwrap_or(20000));
+    let faults: HashSet<usize> = case["faults"].as_array().map(|a| a.iter().filter_map(|x| x.as_u64()).map(|x| x as usize).collect()).unwrap_or_default();
+    let payload = |id: u64| -> Vec<u8> {
+        let mut v = format!("<{}>", id).into_bytes();
+        v.extend(std::iter::repeat(b'x').take((id % 23) as usize));
+        v.push(b'\n');
+        v
+    };
+    let mut ids: HashMap<Vec<u8>, u64> = HashMap::new();
+    for p in 0..nprod {
+        for i in 0..nlines {
+            let id = (p as u64 + 1) * 1_000_000 + i as u64 + 1;
+            ids.insert(payload(id), id);
+        }
+    }
+    let sh = Arc::new(Shared {
+        st: Mutex::new(St {
+            gated: false, parked: None, waking: false, log: Vec::new(), ncalls: 0, faults, epoch: 0,
+            worker_exited: false, worker_tid: None, writer_dropped: false, ids,
+            pstate: vec![], ptid: vec![], results: Vec::new(),
+            dstate: 0, dtid: None, drop_ms: 0, foreign_calls: 0, throttle,
+        }),
+        cv: Condvar::new(),
+    });
+    let mut problems: Vec<String> = Vec::new();
+    let (nb, guard) = NonBlockingBuilder::default().buffered_lines_limit(cap).lossy(lossy).thread_name(WORKER_NAME).finish(SW { sh: sh.clone() });
+    let ec = nb.error_counter();
+    let barrier = Arc::new(Barrier::new(nprod + 1));
+    let returned = Arc::new(AtomicUsize::new(0));
+    let mut joins = Vec::new();
+    for p in 0..nprod {
+        let mut h = if p % 2 == 1 { MakeWriter::make_writer(&nb) } else { nb.clone() };
+        let (b, r) = (barrier.clone(), returned.clone());
+        joins.push(thread::spawn(move || {
+            // (ok, err, short) counts
+            let mut res = (0u64, 0u64, 0u64);
+            b.wait();
+            for i in 0..nlines {
+                let id = (p as u64 + 1) * 1_000_000 + i as u64 + 1;
+                let mut buf = format!("<{}>", id).into_bytes();
+                buf.extend(std::iter::repeat(b'x').take((id % 23) as usize));
+                buf.push(b'\n');
+                let out: io::Result<usize> = if i % 2 == 0 { h.write(&buf) } else { h.write_all(&buf).map(|_| buf.len()) };
+                match out {
+                    Ok(n) if n == buf.len() => res.0 += 1,
+                    Ok(_) => res.2 += 1,
+                    Err(_) => res.1 += 1,
+                }
+                r.fetch_add(1, Ordering::SeqCst);
+            }
+            drop(h);
+            res
+        }));
+    }
+    drop(nb);
+    let t0 = Instant::now();
+    barrier.wait();
+    let mut guard = Some(guard);
+    let spawn_drop = |g: WorkerGuard, sh2: Arc<Shared>| {
+        thread::spawn(move || {
+            let t = Instant::now();
+            drop(g);
+            let mut st = sh2.st.lock().unwrap();
+            st.drop_ms = t.elapsed().as_millis();
+            st.dstate = 3;
+        })
+    };
+    let mut dropper = None;
+    if let Some(n) = guard_after {
+        while returned.load(Ordering::SeqCst) < n.min(nprod * nlines) && t0.elapsed() < bound {
+            thread::yield_now();
+        }
+        dropper = Some(spawn_drop(guard.take().unwrap(), sh.clone()));
+    }
+    // producers (bounded: a producer that never returns is reported, not waited for)
+    let mut pres: Vec<Value> = Vec::new();
+    for (p, j) in joins.into_iter().enumerate() {
+        while !j.is_finished() && t0.elapsed() < bound {
+            thread::sleep(Duration::from_millis(1));
+        }
+        if j.is_finished() {
+            let r = j.join().unwrap_or((0, 0, 0));
+            pres.push(json!([r.0, r.1, r.2]));
+        } else {
+            problems.push(format!("producer {} did not finish within {:?}", p, bound));
+            pres.push(json!([0, 0, 0]));
+        }
+    }
+    if let Some(g) = guard.take() {
+        dropper = Some(spawn_drop(g, sh.clone()));
+    }
+    while sh.st.lock().unwrap().dstate != 3 && t0.elapsed() < bound {
+        thread::sleep(Duration::from_millis(1));
+    }
+    if sh.st.lock().unwrap().dstate != 3 {
+        problems.push(format!("drop(guard) did not return within {:?}", bound));
+    }
+    let _ = dropper;
+    // every sender is gone now: the worker must exit
+    while !sh.st.lock().unwrap().worker_exited && t0.elapsed() < bound {
+        thread::sleep(Duration::from_millis(1));
+    }
+    let msg = drain_fd(err_fd);
+    let st = sh.st.lock().unwrap();
+    let mut unknown: Vec<String> = Vec::new();
+    let log: Vec<Value> = st.log.iter().map(|e| {
+        if e.kind == 1 && e.id == 0 && unknown.len() < 5 {
+            unknown.push(e.hex.clone());
+        }
+        json!([e.kind, e.id, if e.ok { 1 } else { 0 }])
+    }).collect();
+    let out = json!({
+        "mode": "storm", "log": log, "unknown": unknown, "producers": pres, "dropped": ec.dropped_lines(),
+        "worker_exited": st.worker_exited, "writer_dropped": st.writer_dropped, "drop_ms": st.drop_ms as u64,
+        "stderr": msg, "problems": problems, "wall_ms": t0.elapsed().as_millis() as u64,
+    });
+    drop(st);
+    println!("{}", out);
+    let _ = io::stdout().flush();
+    std::process::exit(0);
+}
+
 fn main() {
     let mut input = String::new();
     io::stdin().read_to_string(&mut input).expect("stdin");
@@ -360,6 +508,9 @@ fn main() {
         fds[0]
     };
 
+    if case["mode"].as_str() == Some("storm") {
+        storm(&case, err_fd);
+    }
     let cap = case["cap"].as_u64().unwrap_or(1) as usize;
     let lossy = case["lossy"].as_bool().unwrap_or(true);
     let progs: Vec<Vec<u64>> = case["progs"].as_array().map(|a| {
@@ -382,7 +533,7 @@ fn main() {
             worker_exited: false, worker_tid: None, writer_dropped: false,
             ids: lines.iter().map(|(k, v)| (v.clone(), *k)).collect(),
             pstate: vec![0; np], ptid: vec![None; np], results: Vec::new(),
-            dstate: 0, dtid: None, drop_ms: 0, foreign_calls: 0,
+            dstate: 0, dtid: None, drop_ms: 0, foreign_calls: 0, throttle: 0,
         }),
         cv: Condvar::new(),
     });
